@@ -17,7 +17,7 @@ def behaviour(rnd, depth):
     rich = lambda: {"dA": rnd.choice([200, 5000, 20000]), "dB": rnd.choice([300, 5000, 40000]), "dF": rnd.choice([0, 5, 50])}
     feed = rnd.choice(["dF", "dF", "dB", "dA"])
     params = {"createFee": {"d": feed, "n": rnd.choice([0, 1, 3])}, "bidFee": {"d": rnd.choice(["dB", "dF"]), "n": rnd.choice([0, 0, 1, 2])},
-              "extPeriod": rnd.choice([0, 1, 1, 2, 3])}
+              "extPeriod": rnd.choice([0, 1, 1, 2, 3]) if rnd.random() < 0.95 else rnd.choice([106752, 172800])}   # beyond 2^63 ns
     acts = [{"a": "Init", "users": users, "na": na, "grid": D, "bal0": {u: rich() for u in users}, "params": params, "listeners": 0}]
     now = 0
     auctions = []   # minimal bookkeeping only: [type, start, end, payDenom, sellDenom, price, nbids]
@@ -47,7 +47,7 @@ def behaviour(rnd, depth):
     for _ in range(depth):
         r = rnd.random()
         if r < 0.22:
-            t = now + rnd.choice([1, 1, 1, 2, 3, 7])
+            t = now + (rnd.choice([1, 1, 1, 2, 3, 7]) if params["extPeriod"] < 1000 or rnd.random() < 0.7 else params["extPeriod"])
             acts.append({"a": "Block", "t": t, "fault": 0})
             now = t
         elif r < 0.32 and len(auctions) < na:
@@ -82,7 +82,7 @@ def behaviour(rnd, depth):
             if typ == "F":
                 a = {"a": "Bid", "by": u, "id": i, "type": "F", "price": pr if rnd.random() < 0.9 else price(), "denom": rnd.choice([pd, sd]), "amt": rnd.choice([1, 2, 3, 10, 33, 250])}
             else:
-                ty = rnd.choice(["W", "M"])
+                ty = rnd.choice(["W", "M"]) if rnd.random() < 0.97 else "X"   # X: a bid type outside the documented ones
                 a = {"a": "Bid", "by": u, "id": i, "type": ty, "price": price(), "denom": pd if ty == "W" else sd, "amt": rnd.choice([1, 2, 3, 10, 33, 250, 1000])}
                 if rnd.random() < 0.05:
                     a["denom"] = sd if ty == "W" else pd
